@@ -201,6 +201,8 @@ pub struct Knobs {
     /// percent: after an operation that is not a read, read all of the caller's keys (the observation of C03)
     pub observe_pct: u32,
     pub shards: Vec<usize>,
+    /// time-to-live values used by upserts (empty: same as `ttls`); longer ones widen the window between an old and a new deadline
+    pub pou_ttls: Vec<i64>,
 }
 
 impl Default for Knobs {
@@ -211,7 +213,7 @@ impl Default for Knobs {
             mixw: [28, 22, 12, 26, 6, 3, 3], ttl_pct: 40, weight_pct: 60, pou_ttl_pct: 50,
             await_pcts: vec![0, 30, 70, 100], advance_pcts: vec![0, 3, 8, 15], max_advances: vec![1, 2, 4, 9],
             sweeper_pcts: vec![5, 20, 60], stall_sweeper_pct: 15, stall_consumer_pct: 20, sticky: vec![0, 0, 50, 85],
-            shutdown_pct: 0, heavy_pct: 5, freq_profile: false, final_reads: false, ttls: vec![1, 2, 3, 5, 8, 13], observe_pct: 0, shards: vec![2, 2, 4, 8],
+            shutdown_pct: 0, heavy_pct: 5, freq_profile: false, final_reads: false, ttls: vec![1, 2, 3, 5, 8, 13], observe_pct: 0, shards: vec![2, 2, 4, 8], pou_ttls: Vec::new(),
         }
     }
 }
@@ -282,7 +284,9 @@ impl Gen {
                             o.v = -1; o.w = -1; o.ttl = -1; o.rm = false;
                             if self.rng.gen_bool(0.6) { o.v = self.value(); }
                             if self.rng.gen_range(0..100) < kn.weight_pct / 2 { o.w = self.rng.gen_range(1..=cfg.max_weight.min(9)); }
-                            if self.rng.gen_range(0..100) < kn.pou_ttl_pct { if self.rng.gen_bool(0.65) { o.ttl = self.pick(&kn.ttls); } else { o.rm = true; } }
+                            if self.rng.gen_range(0..100) < kn.pou_ttl_pct {
+                                if self.rng.gen_bool(0.65) { o.ttl = if kn.pou_ttls.is_empty() { self.pick(&kn.ttls) } else { self.pick(&kn.pou_ttls) }; } else { o.rm = true; }
+                            }
                             if o.v >= 0 || o.w >= 0 || o.ttl >= 0 || o.rm { break; }
                         }
                         o
@@ -367,7 +371,7 @@ pub fn knobs(profile: &str) -> Knobs {
         "ttl" => Knobs {
             callers: (1, 2), ops: (20, 50), keys: (2, 5), max_weights: vec![40, 200, 400], mixw: [30, 30, 8, 28, 2, 1, 1],
             ttl_pct: 80, pou_ttl_pct: 85, await_pcts: vec![70, 100, 100], advance_pcts: vec![15, 25, 35], max_advances: vec![1, 1, 2, 3],
-            sweeper_pcts: vec![60, 100], stall_sweeper_pct: 10, ttls: vec![1, 2, 3, 4, 6], heavy_pct: 0, observe_pct: 40, shards: vec![2, 2, 2, 4], ..d },
+            sweeper_pcts: vec![60, 100], stall_sweeper_pct: 10, ttls: vec![1, 2, 3, 4, 6], heavy_pct: 0, observe_pct: 40, shards: vec![2, 2, 2, 4], pou_ttls: vec![2, 4, 5, 6, 8, 10], ..d },
         // memory pressure: small caches, many puts, frequency profiles
         "pressure" => Knobs {
             callers: (1, 3), ops: (20, 50), keys: (5, 12), max_weights: vec![4, 6, 9, 10, 15], mixw: [50, 12, 6, 26, 3, 3, 0],
@@ -376,7 +380,7 @@ pub fn knobs(profile: &str) -> Knobs {
         "seq" => Knobs {
             callers: (1, 3), ops: (25, 55), keys: (2, 3), shared_keys: false, max_weights: vec![400, 1000], mixw: [20, 22, 6, 50, 2, 0, 0],
             ttl_pct: 50, await_pcts: vec![100], advance_pcts: vec![5, 15, 25], max_advances: vec![1, 2, 3], sweeper_pcts: vec![40, 100],
-            heavy_pct: 0, ttls: vec![2, 3, 4, 6, 8], observe_pct: 80, shards: vec![2, 2, 2, 4], ..d },
+            heavy_pct: 0, ttls: vec![2, 3, 4, 6], observe_pct: 80, shards: vec![2, 2, 2, 4], pou_ttls: vec![4, 6, 7, 8, 10, 12], ..d },
         // unawaited bursts on shared keys through tiny queues (C05, C11, C04)
         "burst" => Knobs {
             callers: (1, 3), ops: (12, 30), keys: (1, 3), qsizes: vec![1, 1, 2, 3], mixw: [42, 14, 24, 18, 2, 0, 0], ttl_pct: 15,
